@@ -91,7 +91,7 @@ theorem osStop_spec {os os' : OS} {n : Nat} (h : osStop os n = some os') :
     · intro p hp; simp [List.mem_filter] at hp; exact hp.2
     · intro p hp; simp [List.mem_filter] at hp; exact hp.1
 
-theorem isInstalled_filter_ne (l : List (Nat × Option Nat)) (n m : Nat) (h : m ≠ n) :
+theorem isInstalled_filter_ne (l : List (Nat × Option Nat × Nat)) (n m : Nat) (h : m ≠ n) :
     (l.filter (fun e => e.1 ≠ n)).any (fun e => e.1 = m) = l.any (fun e => e.1 = m) := by
   rw [Bool.eq_iff_iff]
   simp only [List.any_eq_true, List.mem_filter, decide_eq_true_eq]
@@ -99,7 +99,7 @@ theorem isInstalled_filter_ne (l : List (Nat × Option Nat)) (n m : Nat) (h : m 
   · rintro ⟨e, ⟨he, _⟩, hm⟩; exact ⟨e, he, hm⟩
   · rintro ⟨e, he, hm⟩; exact ⟨e, ⟨he, fun hn => h (hm ▸ hn)⟩, hm⟩
 
-theorem isInstalled_filter_self (l : List (Nat × Option Nat)) (n : Nat) :
+theorem isInstalled_filter_self (l : List (Nat × Option Nat × Nat)) (n : Nat) :
     (l.filter (fun e => e.1 ≠ n)).any (fun e => e.1 = n) = false := by
   rw [Bool.eq_false_iff]
   simp only [ne_eq, List.any_eq_true, List.mem_filter, decide_eq_true_eq, not_exists, not_and]
@@ -122,9 +122,9 @@ theorem osUninstall_none {os : OS} {n : Nat} (h : osUninstall os n = none) : os.
   · rename_i hi; simpa using hi
   · cases h
 
-theorem osInstall_spec (os : OS) (n : Nat) (port : Option Nat) :
-    Frame n os (osInstall os n port) ∧ (osInstall os n port).procs = os.procs ∧
-    (osInstall os n port).dirs = os.dirs ∧ (osInstall os n port).isInstalled n = true := by
+theorem osInstall_spec (os : OS) (n : Nat) (port : Option Nat) (rpc : Nat) :
+    Frame n os (osInstall os n port rpc) ∧ (osInstall os n port rpc).procs = os.procs ∧
+    (osInstall os n port rpc).dirs = os.dirs ∧ (osInstall os n port rpc).isInstalled n = true := by
   refine ⟨⟨fun _ _ => Iff.rfl, ?_⟩, rfl, rfl, ?_⟩
   · intro m hm
     have hm' : n ≠ m := fun h => hm h.symm
@@ -169,7 +169,47 @@ theorem onStartFull_cases (s : Svc) (os : OS) (fx : Fx) (pid : Nat) (ct : Bool) 
     · split
       split
       · left; exact ⟨_, rfl, rpcErrSvc_eq s pid⟩
-      · right; exact ⟨rfl, rfl, rfl, rfl⟩
+      · split
+        · right; exact ⟨rfl, rfl, rfl, rfl⟩
+        · right; exact ⟨rfl, rfl, rfl, rfl⟩
+
+theorem rpcCall_ok {os : OS} {rpc : Nat} {fx : Fx} {t : String} (h : (rpcCall os rpc fx t).2 = none) :
+    ∃ o, os.rpcOwner rpc = some o := by
+  unfold rpcCall at h
+  split at h
+  split at h
+  · cases h
+  · split at h
+    · cases h
+    · rename_i o ho; exact ⟨o, ho⟩
+
+/-- What `on_start(pid, full_refresh = true)` records when all its RPC calls were answered: besides Running and the pid,
+the peer id of the service whose process answers on the recorded RPC port, the number of peers that process reports
+and (if it reports a listener) its port. -/
+theorem onStartFull_ok_fields (s : Svc) (os : OS) (fx : Fx) (pid : Nat) (ct : Bool)
+    (hok : (onStartFull s os fx pid ct).2.2 = none) :
+    ∃ o, os.rpcOwner s.rpcPort = some o ∧ (onStartFull s os fx pid ct).1.peer = some o.svc ∧
+      (onStartFull s os fx pid ct).1.peers = some (peersOf o.pid) ∧
+      (onStartFull s os fx pid ct).1.lport = (if listenersEmpty o.pid then none else some o.port) := by
+  unfold onStartFull at hok ⊢
+  split at hok
+  rename_i fx0 e0 heq0
+  split at hok
+  · cases hok
+  · split at hok
+    rename_i fx1 e1 heq1
+    simp only [heq1]
+    split at hok
+    · cases hok
+    · split at hok
+      rename_i fx2 e2 heq2
+      simp only [heq2]
+      split at hok
+      · cases hok
+      · have h2 : (rpcCall os s.rpcPort fx1 "svc:RpcNodeInfoError").2 = none := by rw [heq2]
+        obtain ⟨o, ho⟩ := rpcCall_ok h2
+        refine ⟨o, ho, ?_⟩
+        simp [ho]
 
 /-- `start`: (A) already running, nothing happens; (B) failure, registry entry untouched, a process may have been
 launched; (C) success, the entry records Running with the pid of the service's live process. -/
@@ -192,29 +232,38 @@ theorem svcStart_cases (s : Svc) (os : OS) (fx : Fx) (ct : Bool) :
       · rename_i os' hs
         split
         · right; left; exact ⟨rfl, rfl, Or.inr hs⟩
-        · rename_i p hp
-          rcases onStartFull_cases s os' ‹Fx› p.pid ct with ⟨e, he, hs'⟩ | ⟨he, h1, h2, h3⟩
-          · split
-            rename_i s' fx' e' heq
-            rw [heq] at he hs'
-            simp only at he hs'
-            subst he
-            right; left
-            exact ⟨hs', rfl, Or.inr hs⟩
-          · split
-            rename_i s' fx' e' heq
-            rw [heq] at he h1 h2 h3
-            simp only at he h1 h2 h3
-            subst he
-            right; right
-            exact ⟨rfl, hs, h1, h2, p, hp, h3⟩
+        · split
+          · right; left; exact ⟨rfl, rfl, Or.inr hs⟩
+          · rename_i p hp
+            rcases onStartFull_cases s os' ‹Fx› p.pid ct with ⟨e, he, hs'⟩ | ⟨he, h1, h2, h3⟩
+            · split
+              rename_i s' fx' e' heq
+              rw [heq] at he hs'
+              simp only at he hs'
+              subst he
+              right; left
+              exact ⟨hs', rfl, Or.inr hs⟩
+            · split
+              rename_i s' fx' e' heq
+              rw [heq] at he h1 h2 h3
+              simp only at he h1 h2 h3
+              subst he
+              right; right
+              exact ⟨rfl, hs, h1, h2, p, hp, h3⟩
 
-/-- `stop`: (A) registry entry and OS untouched (and then success means the service was not recorded Running);
-(B) the entry was Running and is now Stopped without pid, and its process is gone. -/
+/-- Translator tie: after a failed `service_control.stop` the process is looked up again and a service whose process
+has gone is recorded as stopped (regenerated from lib.rs). -/
+theorem stopFailed_eq (s : Svc) (os : OS) :
+    stopFailed s os = if (os.lookup s.number).isSome then s else onStop s := by
+  simp [stopFailed, Gen.Lifecycle.stopFailChecksProcess]
+
+/-- `stop`: (A) registry entry untouched, OS untouched (and then success means the service was not recorded Running);
+(B) the entry was Running and is now Stopped without pid, and its process is gone (the operation may still have
+reported a failure: `service_control.stop` killed the process and then returned an error). -/
 theorem svcStop_cases (s : Svc) (os : OS) (fx : Fx) :
     let out := svcStop s os fx
     (out.1 = s ∧ out.2.1 = os ∧ (out.2.2.2.failed = false → s.status ≠ .running)) ∨
-    (s.status = .running ∧ out.1 = onStop s ∧ out.2.2.2.failed = false ∧
+    (s.status = .running ∧ out.1 = onStop s ∧
       ((out.2.1 = os ∧ NoProc os s.number) ∨ osStop os s.number = some out.2.1)) := by
   intro out
   unfold out svcStop
@@ -227,20 +276,29 @@ theorem svcStop_cases (s : Svc) (os : OS) (fx : Fx) :
     · left; exact ⟨rfl, rfl, fun hf => by simp [Res.err] at hf⟩
     · split
       · rename_i hl
-        right; exact ⟨h, rfl, rfl, Or.inl ⟨rfl, lookup_none hl⟩⟩
-      · split
+        right; exact ⟨h, rfl, Or.inl ⟨rfl, lookup_none hl⟩⟩
+      · rename_i p hl
+        have hkeep : stopFailed s os = s := by rw [stopFailed_eq]; simp [hl]
         split
-        · left; exact ⟨rfl, rfl, fun hf => by simp [Res.err] at hf⟩
+        split
+        · left; exact ⟨hkeep, rfl, fun hf => by simp [Res.err] at hf⟩
         · split
-          · left; exact ⟨rfl, rfl, fun hf => by simp [Res.err] at hf⟩
-          · rename_i hs
-            right; exact ⟨h, rfl, rfl, Or.inr hs⟩
+          · left; exact ⟨hkeep, rfl, fun hf => by simp [Res.err] at hf⟩
+          · rename_i os' hs
+            have hgone : stopFailed s os' = onStop s := by
+              rw [stopFailed_eq]
+              have := (noProc_iff_lookup _ _).mp (osStop_spec hs).2.2.2.1
+              simp [this]
+            split
+            · right; exact ⟨h, hgone, Or.inr hs⟩
+            · right; exact ⟨h, rfl, Or.inr hs⟩
 
-/-- `remove`: (A) failure, nothing changed; (B) failure, the entry was Running without a process and is now
+/-- `remove`: (A) failure, registry entry unchanged, the OS unchanged or (the `uninstall` call removed the definition
+and then reported failure) without the definition; (B) failure, the entry was Running without a process and is now
 Stopped; (C) success: the entry was not Running, is now Removed, the definition is gone, processes untouched. -/
 theorem svcRemove_cases (s : Svc) (os : OS) (fx : Fx) (keep : Bool) :
     let out := svcRemove s os fx keep
-    (out.2.2.2.failed = true ∧ out.1 = s ∧ out.2.1 = os) ∨
+    (out.2.2.2.failed = true ∧ out.1 = s ∧ (out.2.1 = os ∨ osUninstall os s.number = some out.2.1)) ∨
     (out.2.2.2.failed = true ∧ s.status = .running ∧ NoProc os s.number ∧ out.1 = onStop s ∧ out.2.1 = os) ∨
     (out.2.2.2.failed = false ∧ s.status ≠ .running ∧ out.1 = { s with status := .removed } ∧
       out.2.1.procs = os.procs ∧ Frame s.number os out.2.1 ∧ out.2.1.isInstalled s.number = false) := by
@@ -250,7 +308,7 @@ theorem svcRemove_cases (s : Svc) (os : OS) (fx : Fx) (keep : Bool) :
   split
   · rename_i h
     split
-    · left; exact ⟨rfl, rfl, rfl⟩
+    · left; exact ⟨rfl, rfl, Or.inl rfl⟩
     · rename_i hl
       right; left
       refine ⟨rfl, h, ?_, rfl, rfl⟩
@@ -260,20 +318,27 @@ theorem svcRemove_cases (s : Svc) (os : OS) (fx : Fx) (keep : Bool) :
   · rename_i h
     split
     split
-    · left; exact ⟨rfl, rfl, rfl⟩
-    · right; right
-      refine ⟨rfl, h, rfl, ?_⟩
-      cases hu : osUninstall os s.number with
-      | none =>
-        have hi := osUninstall_none hu
-        cases keep
-        · exact ⟨rfl, ⟨fun _ _ => Iff.rfl, fun _ _ => rfl⟩, hi⟩
-        · exact ⟨rfl, Frame.refl _ _, hi⟩
-      | some os' =>
-        obtain ⟨hf, hp, _, hi⟩ := osUninstall_spec hu
-        cases keep
-        · exact ⟨hp, ⟨hf.procs, hf.inst⟩, hi⟩
-        · exact ⟨hp, hf, hi⟩
+    · left; exact ⟨rfl, rfl, Or.inl rfl⟩
+    · split
+      · rename_i hfa
+        left
+        refine ⟨rfl, rfl, Or.inr ?_⟩
+        cases hu : osUninstall os s.number with
+        | none => have := osUninstall_none hu; rw [hfa.2] at this; cases this
+        | some os' => rfl
+      · right; right
+        refine ⟨rfl, h, rfl, ?_⟩
+        cases hu : osUninstall os s.number with
+        | none =>
+          have hi := osUninstall_none hu
+          cases keep
+          · exact ⟨rfl, ⟨fun _ _ => Iff.rfl, fun _ _ => rfl⟩, hi⟩
+          · exact ⟨rfl, Frame.refl _ _, hi⟩
+        | some os' =>
+          obtain ⟨hf, hp, _, hi⟩ := osUninstall_spec hu
+          cases keep
+          · exact ⟨hp, ⟨hf.procs, hf.inst⟩, hi⟩
+          · exact ⟨hp, hf, hi⟩
 
 /-! ## One-service transitions -/
 
@@ -347,7 +412,7 @@ theorem svcStart_trans (s : Svc) (os : OS) (fx : Fx) (ct : Bool) :
 
 theorem svcStop_trans (s : Svc) (os : OS) (fx : Fx) :
     Trans s os (svcStop s os fx).1 (svcStop s os fx).2.1 := by
-  rcases svcStop_cases s os fx with ⟨h1, h2, _⟩ | ⟨hr, h1, _, h3⟩
+  rcases svcStop_cases s os fx with ⟨h1, h2, _⟩ | ⟨hr, h1, h3⟩
   · rw [h1, h2]; exact Trans.refl _ _
   · rw [h1]
     have hrem : s.status ≠ .removed := by rw [hr]; simp
@@ -358,20 +423,6 @@ theorem svcStop_trans (s : Svc) (os : OS) (fx : Fx) :
     · obtain ⟨hf, _, _, _, _⟩ := osStop_spec h3
       exact ⟨rfl, hf, fun _ => onStop_pidOk s, fun _ => onStop_good _ s,
         fun _ h => by simp [onStop] at h, fun h => absurd h hrem, fun h => absurd h hrem⟩
-
-theorem svcRemove_trans (s : Svc) (os : OS) (fx : Fx) (keep : Bool) :
-    Trans s os (svcRemove s os fx keep).1 (svcRemove s os fx keep).2.1 := by
-  rcases svcRemove_cases s os fx keep with ⟨_, h1, h2⟩ | ⟨_, hr, _, h1, h2⟩ | ⟨_, hnr, h1, hp, hf, hi⟩
-  · rw [h1, h2]; exact Trans.refl _ _
-  · rw [h1, h2]
-    have hrem : s.status ≠ .removed := by rw [hr]; simp
-    exact ⟨rfl, Frame.refl _ _, fun _ => onStop_pidOk s, fun _ => onStop_good _ s,
-      fun _ h => by simp [onStop] at h, fun h => absurd h hrem, fun h => absurd h hrem⟩
-  · rw [h1]
-    refine ⟨rfl, hf, ?_, ?_, fun _ _ => hi, fun _ _ => rfl, ?_⟩
-    · intro hpo _; exact hpo hnr
-    · intro _ h; simp at h
-    · intro _ _ hn p hpm; rw [hp] at hpm; exact hn p hpm
 
 theorem osUninstall_some_installed {os os' : OS} {n : Nat} (h : osUninstall os n = some os') :
     os.isInstalled n = true := by
@@ -392,6 +443,24 @@ theorem trans_osOnly {s : Svc} {os os' : OS} (hf : Frame s.number os os') (hp : 
     · exact hr
     · rw [hro hrem] at hr; cases hr
   · intro _ _ hn p hpm; rw [hp] at hpm; exact hn p hpm
+
+theorem svcRemove_trans (s : Svc) (os : OS) (fx : Fx) (keep : Bool) :
+    Trans s os (svcRemove s os fx keep).1 (svcRemove s os fx keep).2.1 := by
+  rcases svcRemove_cases s os fx keep with ⟨_, h1, h2⟩ | ⟨_, hr, _, h1, h2⟩ | ⟨_, hnr, h1, hp, hf, hi⟩
+  · rw [h1]
+    rcases h2 with h2 | h2
+    · rw [h2]; exact Trans.refl _ _
+    · obtain ⟨hf2, hp2, _, hi2⟩ := osUninstall_spec h2
+      exact trans_osOnly hf2 hp2 (Or.inl hi2)
+  · rw [h1, h2]
+    have hrem : s.status ≠ .removed := by rw [hr]; simp
+    exact ⟨rfl, Frame.refl _ _, fun _ => onStop_pidOk s, fun _ => onStop_good _ s,
+      fun _ h => by simp [onStop] at h, fun h => absurd h hrem, fun h => absurd h hrem⟩
+  · rw [h1]
+    refine ⟨rfl, hf, ?_, ?_, fun _ _ => hi, fun _ _ => rfl, ?_⟩
+    · intro hpo _; exact hpo hnr
+    · intro _ h; simp at h
+    · intro _ _ hn p hpm; rw [hp] at hpm; exact hn p hpm
 
 theorem svcUpgrade_trans (s : Svc) (os : OS) (fx : Fx) (force start : Bool) (ver : Nat) (ct : Bool) :
     Trans s os (svcUpgrade s os fx force start ver ct).1 (svcUpgrade s os fx force start ver ct).2.1 := by
@@ -417,18 +486,22 @@ theorem svcUpgrade_trans (s : Svc) (os : OS) (fx : Fx) (force start : Bool) (ver
             have hinst := osUninstall_some_installed hu
             have T2 : Trans s1 os1 s1 os2 := trans_osOnly hf2 hp2 (Or.inl hi2)
             split
-            split
             · exact T1.trans T2
-            · obtain ⟨hf3, hp3, _, _⟩ := osInstall_spec os2 s1.number s1.nodePort
-              have T3 : Trans s1 os1 s1 (osInstall os2 s1.number s1.nodePort) :=
-                trans_osOnly (hf2.trans hf3) (hp3.trans hp2) (Or.inr hinst)
+            · split
               split
-              · have T4 := svcStart_trans s1 (osInstall os2 s1.number s1.nodePort) ‹Fx› ct
-                dsimp only
+              · exact T1.trans T2
+              · obtain ⟨hf3, hp3, _, _⟩ := osInstall_spec os2 s1.number s1.nodePort s1.rpcPort
+                have T3 : Trans s1 os1 s1 (osInstall os2 s1.number s1.nodePort s1.rpcPort) :=
+                  trans_osOnly (hf2.trans hf3) (hp3.trans hp2) (Or.inr hinst)
                 split
-                · exact ((T1.trans T3).trans T4).setVersion ver
-                · exact ((T1.trans T3).trans T4).setVersion ver
-              · exact (T1.trans T3).setVersion ver
+                · exact T1.trans T3
+                · split
+                  · have T4 := svcStart_trans s1 (osInstall os2 s1.number s1.nodePort s1.rpcPort) ‹Fx› ct
+                    dsimp only
+                    split
+                    · exact ((T1.trans T3).trans T4).setVersion ver
+                    · exact ((T1.trans T3).trans T4).setVersion ver
+                  · exact (T1.trans T3).setVersion ver
 
 /-! ## A failed operation never newly records Running -/
 
@@ -442,7 +515,7 @@ theorem svcStart_noNewRun (s : Svc) (os : OS) (fx : Fx) (ct : Bool)
 
 theorem svcStop_noNewRun (s : Svc) (os : OS) (fx : Fx) (hr : (svcStop s os fx).1.status = .running) :
     s.status = .running := by
-  rcases svcStop_cases s os fx with ⟨h1, _, _⟩ | ⟨h, _, _, _⟩
+  rcases svcStop_cases s os fx with ⟨h1, _, _⟩ | ⟨h, _, _⟩
   · rw [h1] at hr; exact hr
   · exact h
 
@@ -476,16 +549,20 @@ theorem svcUpgrade_noNewRun' (s : Svc) (os : OS) (fx : Fx) (force start : Bool) 
         · split
           · intro _ hr; exact N1 hr
           · split
-            split
             · intro _ hr; exact N1 hr
             · split
-              · have N4 := svcStart_noNewRun s1 (osInstall ‹OS› s1.number s1.nodePort) ‹Fx› ct
-                dsimp only
-                split
-                · rename_i hfail
-                  intro _ hr; exact N1 (N4 hfail hr)
-                · intro hf; simp [Res.ok] at hf
-              · intro hf; simp [Res.ok] at hf
+              split
+              · intro _ hr; exact N1 hr
+              · split
+                · intro _ hr; exact N1 hr
+                · split
+                  · have N4 := svcStart_noNewRun s1 (osInstall ‹OS› s1.number s1.nodePort s1.rpcPort) ‹Fx› ct
+                    dsimp only
+                    split
+                    · rename_i hfail
+                      intro _ hr; exact N1 (N4 hfail hr)
+                    · intro hf; simp [Res.ok] at hf
+                  · intro hf; simp [Res.ok] at hf
 
 theorem svcUpgrade_noNewRun (s : Svc) (os : OS) (fx : Fx) (force start : Bool) (ver : Nat) (ct : Bool)
     (hf : (svcUpgrade s os fx force start ver ct).2.2.2.failed = true)
@@ -609,7 +686,9 @@ theorem allocPort_minor (w : World) (fx : Fx) :
   split
   split
   · exact ⟨rfl, OsMinor.refl _⟩
-  · exact ⟨rfl, rfl, rfl⟩
+  · split
+    · exact ⟨rfl, rfl, rfl⟩
+    · exact ⟨rfl, rfl, rfl⟩
 
 theorem addPorts_minor (mp rp : Option Nat) (metrics : Bool) (w : World) (fx : Fx) :
     (addPorts mp rp metrics w fx).2.1.reg = w.reg ∧ OsMinor w.os (addPorts mp rp metrics w fx).2.1.os := by
@@ -643,9 +722,11 @@ theorem addPorts_minor (mp rp : Option Nat) (metrics : Bool) (w : World) (fx : F
 theorem addOne_cases (num : Nat) (np mp rp : Option Nat) (metrics : Bool) (ver : Nat) (a : AddAcc) :
     let a' := addOne num np mp rp metrics ver a
     (a'.w.reg = a.w.reg ∧ OsMinor a.w.os a'.w.os) ∨
+    (a'.w.reg = a.w.reg ∧ ∃ os1 rpc, OsMinor a.w.os os1 ∧ a'.w.os = osInstall os1 num np rpc) ∨
     (∃ new os1, new.number = num ∧ new.status = .added ∧ new.pid = none ∧ a'.w.reg = a.w.reg ++ [new] ∧
-      OsMinor a.w.os os1 ∧ a'.w.os = osInstall os1 num np) := by
+      OsMinor a.w.os os1 ∧ a'.w.os = osInstall os1 num np new.rpcPort) := by
   intro a'
+  show _ ∨ _ ∨ _
   unfold a' addOne
   have hp := addPorts_minor mp rp metrics a.w a.fx
   split
@@ -656,8 +737,10 @@ theorem addOne_cases (num : Nat) (np mp rp : Option Nat) (metrics : Bool) (ver :
     rw [heq] at hp
     split
     · left; exact ⟨hp.1, hp.2.1, hp.2.2⟩
-    · right
-      refine ⟨⟨num, .added, none, np, metP, rpcP, ver, none⟩, mkDir w1.os num, rfl, rfl, rfl, ?_, ⟨hp.2.1, hp.2.2⟩, rfl⟩
+    · right; left
+      exact ⟨hp.1, mkDir w1.os num, rpcP, ⟨hp.2.1, hp.2.2⟩, rfl⟩
+    · right; right
+      refine ⟨⟨num, .added, none, np, metP, rpcP, ver, none, none, none⟩, mkDir w1.os num, rfl, rfl, rfl, ?_, ⟨hp.2.1, hp.2.2⟩, rfl⟩
       have h1 : w1.reg = a.w.reg := hp.1
       simp [h1]
 
@@ -677,6 +760,20 @@ theorem removedAt_minor {reg : List Svc} {os os' : OS} {i n : Nat} (hm : OsMinor
   obtain ⟨s, h1, h2, h3, h4⟩ := h
   exact ⟨s, h1, h2, h3, fun p hp => h4 p (by show p ∈ os.procs; rw [← hm.1]; exact hp)⟩
 
+theorem frame_of_minor {os os' : OS} (n : Nat) (h : OsMinor os os') : Frame n os os' :=
+  ⟨fun p _ => by rw [h.1], fun m _ => by simp [OS.isInstalled, h.2]⟩
+
+/-- An OS change that concerns only a number above every recorded one leaves the invariants alone. -/
+theorem inv_frame_fresh {reg : List Svc} {os os' : OS} {num : Nat} (hf : Fresh reg num) (hfr : Frame num os os')
+    (hi : Inv ⟨reg, os⟩) :
+    Inv ⟨reg, os'⟩ ∧ (AllGood ⟨reg, os⟩ → AllGood ⟨reg, os'⟩) ∧
+    (∀ i n, RemovedAt ⟨reg, os⟩ i n → RemovedAt ⟨reg, os'⟩ i n) := by
+  have hne : ∀ s ∈ reg, s.number ≠ num := fun s hs => Nat.ne_of_lt (hf s hs)
+  refine ⟨⟨hi.nodup, hi.pid, fun s hs => remOk_frame hfr (hne s hs) (hi.rem s hs)⟩,
+    fun hg s hs => good_frame hfr (hne s hs) (hg s hs), ?_⟩
+  intro i n ⟨s, h1, h2, h3, h4⟩
+  exact ⟨s, h1, h2, h3, noProc_frame hfr (h2 ▸ hne s (List.mem_of_getElem? h1)) h4⟩
+
 /-- What `add_node` preserves, for one iteration. -/
 theorem addOne_spec (num : Nat) (np mp rp : Option Nat) (metrics : Bool) (ver : Nat) (a : AddAcc)
     (hf : Fresh a.w.reg num) (hi : Inv a.w) :
@@ -684,7 +781,8 @@ theorem addOne_spec (num : Nat) (np mp rp : Option Nat) (metrics : Bool) (ver : 
     Fresh a'.w.reg (num + 1) ∧ Inv a'.w ∧ (AllGood a.w → AllGood a'.w) ∧
     (∀ i n, RemovedAt a.w i n → RemovedAt a'.w i n) := by
   intro a'
-  rcases addOne_cases num np mp rp metrics ver a with ⟨hr, hm⟩ | ⟨new, os1, hn, hst, hpid, hr, hm, hos⟩
+  rcases addOne_cases num np mp rp metrics ver a with ⟨hr, hm⟩ | ⟨hr, os1, rpc, hm, hos⟩ |
+    ⟨new, os1, hn, hst, hpid, hr, hm, hos⟩
   · have hw : a'.w = ⟨a.w.reg, a'.w.os⟩ := by
       show a'.w = ⟨a.w.reg, a'.w.os⟩
       rw [← hr]
@@ -693,10 +791,21 @@ theorem addOne_spec (num : Nat) (np mp rp : Option Nat) (metrics : Bool) (ver : 
     · rw [hw]; exact inv_minor hm hi
     · intro hg; rw [hw]; exact good_minor hm hg
     · intro i n h; rw [hw]; exact removedAt_minor hm h
-  · have hw : a'.w = ⟨a.w.reg ++ [new], osInstall os1 num np⟩ := by
-      show a'.w = ⟨a.w.reg ++ [new], osInstall os1 num np⟩
+  · have hw : a'.w = ⟨a.w.reg, osInstall os1 num np rpc⟩ := by
+      show a'.w = ⟨a.w.reg, osInstall os1 num np rpc⟩
       rw [← hr, ← hos]
-    obtain ⟨hfr, hpr, _, hinst⟩ := osInstall_spec os1 num np
+    have hfr : Frame num a.w.os (osInstall os1 num np rpc) :=
+      (frame_of_minor num hm).trans (osInstall_spec os1 num np rpc).1
+    have := inv_frame_fresh hf hfr hi
+    refine ⟨?_, ?_, ?_, ?_⟩
+    · intro s hs; rw [show a'.w.reg = a.w.reg from hr] at hs; exact Nat.lt_succ_of_lt (hf s hs)
+    · rw [hw]; exact this.1
+    · rw [hw]; exact this.2.1
+    · rw [hw]; exact this.2.2
+  · have hw : a'.w = ⟨a.w.reg ++ [new], osInstall os1 num np new.rpcPort⟩ := by
+      show a'.w = ⟨a.w.reg ++ [new], osInstall os1 num np new.rpcPort⟩
+      rw [← hr, ← hos]
+    obtain ⟨hfr, hpr, _, hinst⟩ := osInstall_spec os1 num np new.rpcPort
     have hi1 : Inv ⟨a.w.reg, os1⟩ := inv_minor hm hi
     refine ⟨?_, ?_, ?_, ?_⟩
     · intro s hs
@@ -733,7 +842,7 @@ theorem addOne_spec (num : Nat) (np mp rp : Option Nat) (metrics : Bool) (ver : 
       rcases hs with hs | rfl
       · intro hrun
         obtain ⟨p, hp, h1, h2⟩ := hg1 s hs hrun
-        exact ⟨p, by show p ∈ (osInstall os1 num np).procs; rw [hpr]; exact hp, h1, h2⟩
+        exact ⟨p, by show p ∈ (osInstall os1 num np new.rpcPort).procs; rw [hpr]; exact hp, h1, h2⟩
       · intro h; rw [hst] at h; cases h
     · intro i n h
       rw [hw]
@@ -804,38 +913,9 @@ theorem addNode_spec (w : World) (fx : Fx) (file : List Svc) (count : Nat) (np m
           · exact this
           · exact this
 
-/-! ## Serialisation round trip -/
-
-theorem decOpt_encOpt (o : Option Nat) (r : List Nat) : decOpt (encOpt o ++ r) = some (o, r) := by
-  cases o <;> rfl
-
-theorem decStatus_code (st : Status) : decStatus st.code = some st := by cases st <;> rfl
-
-theorem decSvc_encSvc (s : Svc) (r : List Nat) : decSvc (encSvc s ++ r) = some (s, r) := by
-  obtain ⟨num, st, pid, np, mp, rp, ver, cp⟩ := s
-  simp only [encSvc, List.cons_append, List.nil_append, List.append_assoc, decSvc, decStatus_code, decOpt_encOpt]
-
-theorem length_le_encode (l : List Svc) : l.length < (encode l).length := by
-  induction l with
-  | nil => simp [encode]
-  | cons s r ih => simp only [encode, List.length_cons, List.length_append]; omega
-
-theorem decodeFuel_encode (l : List Svc) (fuel : Nat) (h : l.length ≤ fuel) : decodeFuel fuel (encode l) = some l := by
-  induction l generalizing fuel with
-  | nil => cases fuel <;> rfl
-  | cons s r ih =>
-    cases fuel with
-    | zero => simp at h
-    | succ fuel =>
-      have hr : r.length ≤ fuel := by simpa using h
-      simp only [encode, decodeFuel, decSvc_encSvc, ih fuel hr, Option.map_some]
-
-theorem decode_encode (l : List Svc) : decode (encode l) = some l :=
-  decodeFuel_encode l _ (Nat.le_of_lt (length_le_encode l))
-
 /-! ## Every operation preserves the invariants -/
 
-theorem onSvc_spec (w : World) (i : Nat) (faults : List Bool) (f : Svc → OS → Fx → Svc × OS × Fx × Res)
+theorem onSvc_spec (w : World) (i : Nat) (faults : List Fault) (f : Svc → OS → Fx → Svc × OS × Fx × Res)
     (hT : ∀ s os fx, Trans s os (f s os fx).1 (f s os fx).2.1) (hi : Inv w) :
     Inv (onSvc w i faults f).1 ∧ (AllGood w → AllGood (onSvc w i faults f).1) ∧
     (∀ k n, RemovedAt w k n → RemovedAt (onSvc w i faults f).1 k n) := by
@@ -946,85 +1026,167 @@ theorem svcRefresh_dead_not_running (os : OS) (s : Svc) (hl : os.lookup s.number
   · exact hr
   · simp [onStop] at hr
 
-/-- How the full refresh treats an entry: untouched, or (no process) refreshed as in the partial refresh. -/
-def RefRel (os : OS) (s s' : Svc) : Prop := s' = s ∨ (os.lookup s.number = none ∧ s' = svcRefresh os s)
+/-- What a refresh (partial or full) makes of an entry it visits: without a process as in the partial refresh, with a
+live process `Running` with the pid the OS reports. -/
+def Refreshed (os : OS) (s s' : Svc) : Prop :=
+  (os.lookup s.number = none ∧ s' = svcRefresh os s) ∨
+  (∃ p, os.lookup s.number = some p ∧ s'.number = s.number ∧ s'.status = .running ∧ s'.pid = some p.pid)
 
-theorem refreshFull_get (os : OS) (reg : List Svc) (k : Nat) :
-    ((refreshFull os reg).1[k]? = none ∧ reg[k]? = none) ∨
-    ∃ s s', reg[k]? = some s ∧ (refreshFull os reg).1[k]? = some s' ∧ RefRel os s s' := by
-  induction reg generalizing k with
+/-- How the full refresh treats an entry: untouched (the failing one and those after it), or refreshed. -/
+def RefRel (os : OS) (s s' : Svc) : Prop := s' = s ∨ Refreshed os s s'
+
+/-- Entry by entry: related by `RefRel`; if the full refresh went through, every entry was refreshed. -/
+theorem refreshFull_get (os : OS) (reg : List Svc) (fx : Fx) (k : Nat) :
+    ((refreshFull os reg fx).1[k]? = none ∧ reg[k]? = none) ∨
+    ∃ s s', reg[k]? = some s ∧ (refreshFull os reg fx).1[k]? = some s' ∧ RefRel os s s' ∧
+      ((refreshFull os reg fx).2.2 = none → Refreshed os s s') := by
+  induction reg generalizing k fx with
   | nil => left; simp [refreshFull]
   | cons s r ih =>
     unfold refreshFull
     split
     · rename_i p hp
-      rw [rpcErrSvc_eq]
-      cases k with
-      | zero => right; exact ⟨s, s, rfl, rfl, Or.inl rfl⟩
-      | succ k =>
-        cases h : r[k]? with
-        | none => left; simp [h]
-        | some t => right; exact ⟨t, t, by simp [h], by simp [h], Or.inl rfl⟩
+      have hc := onStartFull_cases s os fx p.pid false
+      split
+      · rename_i s' fx' e heq
+        rw [heq] at hc
+        simp only at hc
+        have hs' : s' = s := by
+          rcases hc with ⟨_, _, h⟩ | ⟨h, _⟩
+          · exact h
+          · cases h
+        cases k with
+        | zero => right; exact ⟨s, s', rfl, rfl, Or.inl hs', fun h => by cases h⟩
+        | succ k =>
+          cases h : r[k]? with
+          | none => left; simp [h]
+          | some t => right; exact ⟨t, t, by simp [h], by simp [h], Or.inl rfl, fun h => by cases h⟩
+      · rename_i s' fx' heq
+        rw [heq] at hc
+        simp only at hc
+        have hs' : Refreshed os s s' := by
+          rcases hc with ⟨e, h, _⟩ | ⟨_, h1, h2, h3⟩
+          · cases h
+          · exact Or.inr ⟨p, hp, h1, h2, h3⟩
+        split
+        rename_i r' fx'' e heq2
+        have ih' := fun k => ih (k := k) (fx := fx')
+        rw [heq2] at ih'
+        cases k with
+        | zero => right; exact ⟨s, s', rfl, rfl, Or.inr hs', fun _ => hs'⟩
+        | succ k => simpa using ih' k
     · rename_i hl
       split
-      rename_i r' f heq
-      have ih' := ih
+      rename_i r' fx' e heq
+      have ih' := fun k => ih (k := k) (fx := fx)
       rw [heq] at ih'
       cases k with
-      | zero => right; exact ⟨s, svcRefresh os s, rfl, rfl, Or.inr ⟨hl, rfl⟩⟩
+      | zero => right; exact ⟨s, svcRefresh os s, rfl, rfl, Or.inr (Or.inl ⟨hl, rfl⟩), fun _ => Or.inl ⟨hl, rfl⟩⟩
       | succ k => simpa using ih' k
 
-theorem refRel_number {os : OS} {s s' : Svc} (h : RefRel os s s') : s'.number = s.number := by
-  rcases h with rfl | ⟨_, rfl⟩
-  · rfl
+theorem refreshed_number {os : OS} {s s' : Svc} (h : Refreshed os s s') : s'.number = s.number := by
+  rcases h with ⟨_, rfl⟩ | ⟨_, _, h, _⟩
   · exact svcRefresh_number _ _
+  · exact h
 
-theorem refreshFull_numbers (os : OS) (reg : List Svc) :
-    (refreshFull os reg).1.map (·.number) = reg.map (·.number) := by
+theorem refRel_number {os : OS} {s s' : Svc} (h : RefRel os s s') : s'.number = s.number := by
+  rcases h with rfl | h
+  · rfl
+  · exact refreshed_number h
+
+theorem refreshFull_numbers (os : OS) (reg : List Svc) (fx : Fx) :
+    (refreshFull os reg fx).1.map (·.number) = reg.map (·.number) := by
   apply List.ext_getElem?
   intro k
   simp only [List.getElem?_map]
-  rcases refreshFull_get os reg k with ⟨h1, h2⟩ | ⟨s, s', h1, h2, h3⟩
+  rcases refreshFull_get os reg fx k with ⟨h1, h2⟩ | ⟨s, s', h1, h2, h3, _⟩
   · rw [h1, h2]
   · rw [h1, h2]; simp [refRel_number h3]
 
-theorem refreshFull_mem {os : OS} {reg : List Svc} {s' : Svc} (h : s' ∈ (refreshFull os reg).1) :
-    ∃ s ∈ reg, RefRel os s s' := by
+theorem refreshFull_mem {os : OS} {reg : List Svc} {fx : Fx} {s' : Svc} (h : s' ∈ (refreshFull os reg fx).1) :
+    ∃ s ∈ reg, RefRel os s s' ∧ ((refreshFull os reg fx).2.2 = none → Refreshed os s s') := by
   obtain ⟨k, hk⟩ := List.mem_iff_getElem?.mp h
-  rcases refreshFull_get os reg k with ⟨h1, _⟩ | ⟨s, t, h1, h2, h3⟩
+  rcases refreshFull_get os reg fx k with ⟨h1, _⟩ | ⟨s, t, h1, h2, h3, h4⟩
   · rw [h1] at hk; cases hk
   · rw [h2] at hk; cases hk
-    exact ⟨s, List.mem_of_getElem? h1, h3⟩
+    exact ⟨s, List.mem_of_getElem? h1, h3, h4⟩
 
-theorem refreshFull_spec (w : World) (hi : Inv w) :
-    Inv ⟨(refreshFull w.os w.reg).1, w.os⟩ ∧ (AllGood w → AllGood ⟨(refreshFull w.os w.reg).1, w.os⟩) ∧
-    (∀ k n, RemovedAt w k n → RemovedAt ⟨(refreshFull w.os w.reg).1, w.os⟩ k n) := by
+theorem refreshed_pidOk {os : OS} {s s' : Svc} (h : Refreshed os s s') (hp : PidOk s) : PidOk s' := by
+  rcases h with ⟨_, rfl⟩ | ⟨_, _, _, h, _⟩
+  · exact svcRefresh_pidOk _ _ hp
+  · exact fun hne => absurd h hne
+
+theorem refreshed_remOk {os : OS} {s s' : Svc} (h : Refreshed os s s') (hp : RemOk os s) : RemOk os s' := by
+  rcases h with ⟨_, rfl⟩ | ⟨_, _, _, h, _⟩
+  · exact svcRefresh_remOk _ _ hp
+  · intro hrem; rw [h] at hrem; cases hrem
+
+/-- A refreshed entry recorded Running has a live process with the recorded pid — whatever it recorded before. -/
+theorem refreshed_good {os : OS} {s s' : Svc} (h : Refreshed os s s') : Good os s' := by
+  rcases h with ⟨_, rfl⟩ | ⟨p, hp, h1, _, h3⟩
+  · exact svcRefresh_good _ _
+  · intro _
+    exact ⟨p, (lookup_some hp).1, (lookup_some hp).2.trans h1.symm, h3⟩
+
+/-- A refreshed entry recorded Running carries exactly the pid the OS reports for its binary. -/
+theorem refreshed_os_pid {os : OS} {s s' : Svc} (h : Refreshed os s s') (hr : s'.status = .running) :
+    ∃ p, os.lookup s'.number = some p ∧ s'.pid = some p.pid := by
+  rcases h with ⟨hl, rfl⟩ | ⟨p, hp, h1, _, h3⟩
+  · rw [svcRefresh_number]
+    unfold svcRefresh at hr ⊢
+    rw [hl] at hr ⊢
+    dsimp only at hr ⊢
+    split at hr
+    · rename_i h; rw [h] at hr; cases hr
+    · rename_i h; rw [h] at hr; cases hr
+    · simp [onStop] at hr
+  · exact ⟨p, h1 ▸ hp, h3⟩
+
+/-- A refreshed entry that is not recorded Running has no live process (no orphan). -/
+theorem refreshed_noOrphan {os : OS} {s s' : Svc} (h : Refreshed os s s') (hnr : s'.status ≠ .running) :
+    NoProc os s'.number := by
+  rcases h with ⟨hl, rfl⟩ | ⟨_, _, _, h2, _⟩
+  · rw [svcRefresh_number]; exact lookup_none hl
+  · exact absurd h2 hnr
+
+theorem refreshFull_spec (w : World) (fx : Fx) (hi : Inv w) :
+    Inv ⟨(refreshFull w.os w.reg fx).1, w.os⟩ ∧ (AllGood w → AllGood ⟨(refreshFull w.os w.reg fx).1, w.os⟩) ∧
+    (∀ k n, RemovedAt w k n → RemovedAt ⟨(refreshFull w.os w.reg fx).1, w.os⟩ k n) := by
   refine ⟨⟨?_, ?_, ?_⟩, ?_, ?_⟩
-  · show ((refreshFull w.os w.reg).1.map (·.number)).Nodup
+  · show ((refreshFull w.os w.reg fx).1.map (·.number)).Nodup
     rw [refreshFull_numbers]; exact hi.nodup
   · intro t ht
-    obtain ⟨s, hs, h⟩ := refreshFull_mem ht
-    rcases h with rfl | ⟨_, rfl⟩
+    obtain ⟨s, hs, h, _⟩ := refreshFull_mem ht
+    rcases h with rfl | h
     · exact hi.pid _ hs
-    · exact svcRefresh_pidOk _ _ (hi.pid s hs)
+    · exact refreshed_pidOk h (hi.pid s hs)
   · intro t ht
-    obtain ⟨s, hs, h⟩ := refreshFull_mem ht
-    rcases h with rfl | ⟨_, rfl⟩
+    obtain ⟨s, hs, h, _⟩ := refreshFull_mem ht
+    rcases h with rfl | h
     · exact hi.rem _ hs
-    · exact svcRefresh_remOk _ _ (hi.rem s hs)
+    · exact refreshed_remOk h (hi.rem s hs)
   · intro hg t ht
-    obtain ⟨s, hs, h⟩ := refreshFull_mem ht
-    rcases h with rfl | ⟨_, rfl⟩
+    obtain ⟨s, hs, h, _⟩ := refreshFull_mem ht
+    rcases h with rfl | h
     · exact hg _ hs
-    · exact svcRefresh_good _ _
+    · exact refreshed_good h
   · intro k n ⟨s, h1, h2, h3, h4⟩
-    rcases refreshFull_get w.os w.reg k with ⟨_, h6⟩ | ⟨s0, s', g1, g2, g3⟩
+    rcases refreshFull_get w.os w.reg fx k with ⟨_, h6⟩ | ⟨s0, s', g1, g2, g3, _⟩
     · rw [h6] at h1; cases h1
     · rw [h1] at g1; cases g1
       refine ⟨s', g2, (refRel_number g3).trans h2, ?_, h4⟩
-      rcases g3 with rfl | ⟨hl, rfl⟩
+      have hl : w.os.lookup s.number = none := (noProc_iff_lookup _ _).mp (h2 ▸ h4)
+      rcases g3 with rfl | ⟨_, rfl⟩ | ⟨p, hp, _⟩
       · exact h3
       · simp [svcRefresh, hl, h3]
+      · rw [hl] at hp; cases hp
+
+/-- A full refresh that went through re-establishes the clause for every entry, from any state. -/
+theorem refreshFull_ok_good (os : OS) (reg : List Svc) (fx : Fx) (hok : (refreshFull os reg fx).2.2 = none) :
+    AllGood ⟨(refreshFull os reg fx).1, os⟩ := by
+  intro t ht
+  obtain ⟨s, _, _, h⟩ := refreshFull_mem ht
+  exact refreshed_good (h hok)
 
 theorem osRestart_installed (os : OS) (n : Nat) : (osRestart os n).installed = os.installed := by
   unfold osRestart; split <;> rfl
@@ -1042,6 +1204,341 @@ theorem osRestart_noProc {os : OS} {n m : Nat} (h : NoProc os n) : NoProc (osRes
       simp only at hmn
       subst hmn
       exact h p (lookup_some hp).1 (lookup_some hp).2
+
+/-! ## Only `add_node` creates service definitions for new numbers -/
+
+/-- Every service definition present afterwards was present before. -/
+def InstSub (os os' : OS) : Prop := ∀ m, os'.isInstalled m = true → os.isInstalled m = true
+
+theorem InstSub.refl (os : OS) : InstSub os os := fun _ h => h
+theorem InstSub.trans {a b c : OS} (h1 : InstSub a b) (h2 : InstSub b c) : InstSub a c := fun m h => h1 m (h2 m h)
+theorem InstSub.of_eq {os os' : OS} (h : os'.installed = os.installed) : InstSub os os' :=
+  fun m hm => by rw [isInstalled_congr' h m] at hm; exact hm
+
+theorem svcStart_instSub (s : Svc) (os : OS) (fx : Fx) (ct : Bool) : InstSub os (svcStart s os fx ct).2.1 := by
+  rcases svcStart_cases s os fx ct with ⟨_, h2, _⟩ | ⟨_, _, h3⟩ | ⟨_, hs, _⟩
+  · rw [h2]; exact InstSub.refl _
+  · rcases h3 with h3 | h3
+    · rw [h3]; exact InstSub.refl _
+    · exact InstSub.of_eq (osStart_spec h3).2.1
+  · exact InstSub.of_eq (osStart_spec hs).2.1
+
+theorem svcStop_instSub (s : Svc) (os : OS) (fx : Fx) : InstSub os (svcStop s os fx).2.1 := by
+  rcases svcStop_cases s os fx with ⟨_, h2, _⟩ | ⟨_, _, h3⟩
+  · rw [h2]; exact InstSub.refl _
+  · rcases h3 with ⟨h3, _⟩ | h3
+    · rw [h3]; exact InstSub.refl _
+    · exact InstSub.of_eq (osStop_spec h3).2.1
+
+theorem instSub_of_frame_false {n : Nat} {os os' : OS} (hf : Frame n os os') (hi : os'.isInstalled n = false) :
+    InstSub os os' := by
+  intro m hm
+  by_cases hmn : m = n
+  · subst hmn; rw [hi] at hm; cases hm
+  · rw [hf.inst m hmn] at hm; exact hm
+
+theorem svcRemove_instSub (s : Svc) (os : OS) (fx : Fx) (keep : Bool) : InstSub os (svcRemove s os fx keep).2.1 := by
+  rcases svcRemove_cases s os fx keep with ⟨_, _, h2⟩ | ⟨_, _, _, _, h2⟩ | ⟨_, _, _, _, hf, hi⟩
+  · rcases h2 with h2 | h2
+    · rw [h2]; exact InstSub.refl _
+    · obtain ⟨hf2, _, _, hi2⟩ := osUninstall_spec h2
+      exact instSub_of_frame_false hf2 hi2
+  · rw [h2]; exact InstSub.refl _
+  · exact instSub_of_frame_false hf hi
+
+theorem svcStop_number (s : Svc) (os : OS) (fx : Fx) : (svcStop s os fx).1.number = s.number :=
+  (svcStop_trans s os fx).num
+
+theorem svcUpgrade_instSub (s : Svc) (os : OS) (fx : Fx) (force start : Bool) (ver : Nat) (ct : Bool) :
+    InstSub os (svcUpgrade s os fx force start ver ct).2.1 := by
+  unfold svcUpgrade
+  split
+  · exact InstSub.refl _
+  · have T1 := svcStop_instSub s os fx
+    split
+    rename_i s1 os1 fx1 r1 heq
+    rw [heq] at T1
+    simp only at T1
+    split
+    · exact T1
+    · split
+      · exact T1
+      · split
+        split
+        · exact T1
+        · split
+          · exact T1
+          · rename_i os2 hu
+            obtain ⟨hf2, _, _, hi2⟩ := osUninstall_spec hu
+            have hinst := osUninstall_some_installed hu
+            have T2 : InstSub os1 os2 := instSub_of_frame_false hf2 hi2
+            split
+            · exact T1.trans T2
+            · split
+              split
+              · exact T1.trans T2
+              · obtain ⟨hf3, _, _, _⟩ := osInstall_spec os2 s1.number s1.nodePort s1.rpcPort
+                have T3 : InstSub os1 (osInstall os2 s1.number s1.nodePort s1.rpcPort) := by
+                  intro m hm
+                  by_cases hmn : m = s1.number
+                  · subst hmn; exact hinst
+                  · rw [hf3.inst m hmn, hf2.inst m hmn] at hm; exact hm
+                split
+                · exact T1.trans T3
+                · split
+                  · have T4 := svcStart_instSub s1 (osInstall os2 s1.number s1.nodePort s1.rpcPort) ‹Fx› ct
+                    dsimp only
+                    split
+                    · exact (T1.trans T3).trans T4
+                    · exact (T1.trans T3).trans T4
+                  · exact T1.trans T3
+
+/-! ### The daemon's restart (`restart_node_service`) -/
+
+/-- `retain_peer_id = true`: stop, uninstall, reinstall, start — the same shape as `upgrade`. -/
+theorem svcRestartRetain_trans (s : Svc) (os : OS) (fx : Fx) :
+    Trans s os (svcRestartRetain s os fx).1 (svcRestartRetain s os fx).2.1 := by
+  unfold svcRestartRetain
+  have T1 := svcStop_trans s os fx
+  split
+  rename_i s1 os1 fx1 r1 heq
+  rw [heq] at T1
+  simp only at T1
+  split
+  · exact T1
+  · split
+    split
+    · exact T1
+    · split
+      · exact T1
+      · rename_i os2 hu
+        obtain ⟨hf2, hp2, _, hi2⟩ := osUninstall_spec hu
+        have hinst := osUninstall_some_installed hu
+        have T2 : Trans s1 os1 s1 os2 := trans_osOnly hf2 hp2 (Or.inl hi2)
+        split
+        · exact T1.trans T2
+        · split
+          split
+          · exact T1.trans T2
+          · obtain ⟨hf3, hp3, _, _⟩ := osInstall_spec os2 s1.number s.lport s1.rpcPort
+            have T3 : Trans s1 os1 s1 (osInstall os2 s1.number s.lport s1.rpcPort) :=
+              trans_osOnly (hf2.trans hf3) (hp3.trans hp2) (Or.inr hinst)
+            split
+            · exact T1.trans T3
+            · exact (T1.trans T3).trans (svcStart_trans s1 _ _ false)
+
+theorem svcRestartRetain_noNewRun (s : Svc) (os : OS) (fx : Fx) :
+    NoNewRunOut s (svcRestartRetain s os fx) := by
+  unfold svcRestartRetain
+  have N1 := svcStop_noNewRun s os fx
+  split
+  rename_i s1 os1 fx1 r1 heq
+  rw [heq] at N1
+  simp only at N1
+  split
+  · intro _ hr; exact N1 hr
+  · split
+    split
+    · intro _ hr; exact N1 hr
+    · split
+      · intro _ hr; exact N1 hr
+      · split
+        · intro _ hr; exact N1 hr
+        · split
+          split
+          · intro _ hr; exact N1 hr
+          · split
+            · intro _ hr; exact N1 hr
+            · intro hf hr; exact N1 (svcStart_noNewRun s1 _ _ false hf hr)
+
+theorem svcRestartRetain_instSub (s : Svc) (os : OS) (fx : Fx) : InstSub os (svcRestartRetain s os fx).2.1 := by
+  unfold svcRestartRetain
+  have T1 := svcStop_instSub s os fx
+  split
+  rename_i s1 os1 fx1 r1 heq
+  rw [heq] at T1
+  simp only at T1
+  split
+  · exact T1
+  · split
+    split
+    · exact T1
+    · split
+      · exact T1
+      · rename_i os2 hu
+        obtain ⟨hf2, _, _, hi2⟩ := osUninstall_spec hu
+        have hinst := osUninstall_some_installed hu
+        have T2 : InstSub os1 os2 := instSub_of_frame_false hf2 hi2
+        split
+        · exact T1.trans T2
+        · split
+          split
+          · exact T1.trans T2
+          · obtain ⟨hf3, _, _, _⟩ := osInstall_spec os2 s1.number s.lport s1.rpcPort
+            have T3 : InstSub os1 (osInstall os2 s1.number s.lport s1.rpcPort) := by
+              intro m hm
+              by_cases hmn : m = s1.number
+              · subst hmn; exact hinst
+              · rw [hf3.inst m hmn, hf2.inst m hmn] at hm; exact hm
+            split
+            · exact T1.trans T3
+            · exact (T1.trans T3).trans (svcStart_instSub s1 _ _ false)
+
+theorem mkDir_minor (os : OS) (num : Nat) : OsMinor os (mkDir os num) := ⟨rfl, rfl⟩
+
+/-- Translator tie: the replacement service is numbered from the highest recorded number (regenerated from rpc.rs). -/
+theorem restartNumber_eq (reg : List Svc) : restartNumber reg = maxNumber reg + 1 := by
+  simp [restartNumber, maxNumber, Gen.Lifecycle.restartNumberFromMax]
+
+theorem fresh_restartNumber (reg : List Svc) : Fresh reg (restartNumber reg) := by
+  rw [restartNumber_eq]
+  exact fun s hs => Nat.lt_succ_of_le ((foldl_max_le reg 0).2 s hs)
+
+/-- The new-service branch: (A) the install failed: nothing recorded; a directory was created and — if the `install`
+call wrote the definition before reporting failure — an unrecorded definition numbered `num` exists; (B) an entry
+numbered `num` is recorded: the outcome of `start` on a fresh `Added` entry over the OS with the new definition.
+Translator tie: a replacement whose first start failed is recorded too (regenerated from rpc.rs). -/
+theorem restartFresh_cases (num : Nat) (s1 : Svc) (os : OS) (fx : Fx) :
+    let out := restartFresh num s1 os fx
+    (out.1 = none ∧ out.2.2.2.failed = true ∧
+      (OsMinor os out.2.1 ∨ (fx.pop.1 = .failAfter ∧ out.2.1 = osInstall (mkDir os num) num none s1.rpcPort))) ∨
+    (∃ node0 node, node0.number = num ∧ node0.status = .added ∧ node0.pid = none ∧ out.1 = some node ∧
+      Trans node0 (osInstall (mkDir os num) num none s1.rpcPort) node out.2.1 ∧
+      InstSub (osInstall (mkDir os num) num none s1.rpcPort) out.2.1 ∧
+      (out.2.2.2.failed = true → node.status = .running → False)) := by
+  intro out
+  unfold out restartFresh
+  dsimp only
+  split
+  · left; exact ⟨rfl, rfl, Or.inl (mkDir_minor os num)⟩
+  · split
+    · rename_i hfa
+      left; exact ⟨rfl, rfl, Or.inr ⟨hfa, rfl⟩⟩
+    · right
+      have T := svcStart_trans ⟨num, .added, none, none, none, s1.rpcPort, s1.version, none, none, none⟩
+        (osInstall (mkDir os num) num none s1.rpcPort) fx.pop.2 false
+      have I := svcStart_instSub ⟨num, .added, none, none, none, s1.rpcPort, s1.version, none, none, none⟩
+        (osInstall (mkDir os num) num none s1.rpcPort) fx.pop.2 false
+      have N := svcStart_noNewRun ⟨num, .added, none, none, none, s1.rpcPort, s1.version, none, none, none⟩
+        (osInstall (mkDir os num) num none s1.rpcPort) fx.pop.2 false
+      split
+      · rename_i hfail
+        refine ⟨_, _, rfl, rfl, rfl, by simp [Gen.Lifecycle.restartRecordsFailedStart], T, I, ?_⟩
+        intro _ hr
+        have := N hfail hr
+        cases this
+      · rename_i hok
+        refine ⟨_, _, rfl, rfl, rfl, rfl, T, I, ?_⟩
+        intro hf; exact absurd hf hok
+
+/-- Appending the outcome of an operation on a fresh `Added` entry (number `num`, above every recorded number) whose
+definition was just installed. -/
+theorem append_spec {reg : List Svc} {os os1 os' : OS} {num : Nat} {node0 node : Svc} {port : Option Nat} {rpc : Nat}
+    (hf : Fresh reg num) (hi : Inv ⟨reg, os⟩) (hm : OsMinor os os1)
+    (hn0 : node0.number = num) (hst : node0.status = .added) (hpid : node0.pid = none)
+    (T : Trans node0 (osInstall os1 num port rpc) node os') :
+    Inv ⟨reg ++ [node], os'⟩ ∧ (AllGood ⟨reg, os⟩ → AllGood ⟨reg ++ [node], os'⟩) ∧
+    (∀ i n, RemovedAt ⟨reg, os⟩ i n → RemovedAt ⟨reg ++ [node], os'⟩ i n) := by
+  have hnum : node.number = num := T.num.trans hn0
+  have hfr : Frame num os os' :=
+    ((frame_of_minor num hm).trans (osInstall_spec os1 num port rpc).1).trans (hn0 ▸ T.frame)
+  have hne : ∀ s ∈ reg, s.number ≠ num := fun s hs => Nat.ne_of_lt (hf s hs)
+  refine ⟨⟨?_, ?_, ?_⟩, ?_, ?_⟩
+  · show ((reg ++ [node]).map (·.number)).Nodup
+    rw [List.map_append, List.nodup_append]
+    refine ⟨hi.nodup, by simp, ?_⟩
+    intro x hx y hy
+    simp only [List.map_cons, List.map_nil, List.mem_singleton] at hy
+    obtain ⟨s, hs, rfl⟩ := List.mem_map.mp hx
+    rw [hy, hnum]
+    exact hne s hs
+  · intro s hs
+    simp only [List.mem_append, List.mem_singleton] at hs
+    rcases hs with hs | rfl
+    · exact hi.pid s hs
+    · exact T.pidOk (fun _ => hpid)
+  · intro s hs
+    simp only [List.mem_append, List.mem_singleton] at hs
+    rcases hs with hs | rfl
+    · exact remOk_frame hfr (hne s hs) (hi.rem s hs)
+    · exact T.remOk (fun h => by rw [hst] at h; cases h)
+  · intro hg s hs
+    simp only [List.mem_append, List.mem_singleton] at hs
+    rcases hs with hs | rfl
+    · exact good_frame hfr (hne s hs) (hg s hs)
+    · exact T.good (fun h => by rw [hst] at h; cases h)
+  · intro i n ⟨s, h1, h2, h3, h4⟩
+    have hs : s ∈ reg := List.mem_of_getElem? h1
+    refine ⟨s, ?_, h2, h3, noProc_frame hfr (h2 ▸ hne s hs) h4⟩
+    show (reg ++ [node])[i]? = some s
+    have hlt : i < reg.length := by
+      rcases Nat.lt_or_ge i reg.length with hlt | hge
+      · exact hlt
+      · rw [List.getElem?_eq_none hge] at h1; cases h1
+    rw [List.getElem?_append_left hlt]; exact h1
+
+theorem fresh_set {reg : List Svc} {j num : Nat} {s s' : Svc} (hget : reg[j]? = some s) (hn : s'.number = s.number)
+    (hf : Fresh reg num) : Fresh (reg.set j s') num := by
+  intro t ht
+  rcases mem_set_cases ht with rfl | ⟨k, _, hk⟩
+  · rw [hn]; exact hf s (List.mem_of_getElem? hget)
+  · exact hf t (List.mem_of_getElem? hk)
+
+theorem restartAt_spec (w : World) (j : Nat) (retain : Bool) (faults : List Fault) (hi : Inv w) :
+    Inv (restartAt w j retain faults).1 ∧ (AllGood w → AllGood (restartAt w j retain faults).1) ∧
+    (∀ k n, RemovedAt w k n → RemovedAt (restartAt w j retain faults).1 k n) := by
+  unfold restartAt
+  split
+  · exact ⟨hi, id, fun _ _ h => h⟩
+  · rename_i s hget
+    split
+    · exact onSvc_spec w j faults svcRestartRetain svcRestartRetain_trans hi
+    · have T1 := svcStop_trans s w.os ⟨faults, 0⟩
+      split
+      rename_i s1 os1 fx1 r1 heq
+      rw [heq] at T1
+      simp only at T1
+      have I1 : Inv ⟨w.reg.set j s1, os1⟩ := set_inv hget T1 hi
+      have G1 : AllGood w → AllGood ⟨w.reg.set j s1, os1⟩ := set_good hget T1 hi
+      have R1 : ∀ k n, RemovedAt w k n → RemovedAt ⟨w.reg.set j s1, os1⟩ k n :=
+        fun k n h => set_removedAt hget T1 hi h
+      split
+      · exact ⟨I1, G1, R1⟩
+      · have hc := restartFresh_cases (restartNumber w.reg) s1 os1 fx1
+        split
+        rename_i new os2 fx2 r2 heq2
+        rw [heq2] at hc
+        simp only at hc
+        rcases hc with ⟨hnone, _, hm⟩ | ⟨node0, node, hn0, hst, hpid, hsome, T, _, _⟩
+        · subst hnone
+          simp only [Option.toList_none, List.append_nil]
+          rcases hm with hm | ⟨_, hm⟩
+          · exact ⟨inv_minor hm I1, fun h => good_minor hm (G1 h), fun k n h => removedAt_minor hm (R1 k n h)⟩
+          · rw [hm]
+            have hf : Fresh (w.reg.set j s1) (restartNumber w.reg) :=
+              fresh_set hget T1.num (fresh_restartNumber w.reg)
+            have hfr : Frame (restartNumber w.reg) os1
+                (osInstall (mkDir os1 (restartNumber w.reg)) (restartNumber w.reg) none s1.rpcPort) :=
+              (frame_of_minor _ (mkDir_minor os1 _)).trans (osInstall_spec _ _ _ _).1
+            have := inv_frame_fresh hf hfr I1
+            exact ⟨this.1, fun h => this.2.1 (G1 h), fun k n h => this.2.2 k n (R1 k n h)⟩
+        · subst hsome
+          simp only [Option.toList_some]
+          have hf : Fresh (w.reg.set j s1) (restartNumber w.reg) :=
+            fresh_set hget T1.num (fresh_restartNumber w.reg)
+          have := append_spec hf I1 (mkDir_minor os1 (restartNumber w.reg)) hn0 hst hpid T
+          exact ⟨this.1, fun h => this.2.1 (G1 h), fun k n h => this.2.2 k n (R1 k n h)⟩
+
+/-- The two refreshes: the partial one every `antctl` command runs first, and the full one of `antctl status`. -/
+def Op.isRefresh : Op → Bool
+  | .refresh => true
+  | .refreshFull _ _ => true
+  | _ => false
+
+/-- The full refresh (`antctl status`). -/
+def Op.isFullRefresh : Op → Bool
+  | .refreshFull _ _ => true
+  | _ => false
 
 /-- Events behind the manager's back (a process dies, or is restarted under a new pid). -/
 def Op.isKill : Op → Bool
@@ -1073,10 +1570,27 @@ theorem exec_spec (w : World) (op : Op) (hi : Inv w) :
   | refresh =>
     have := refresh_spec w hi
     exact ⟨this.1, fun _ _ => this.2.1, this.2.2⟩
-  | refreshFull =>
-    have := refreshFull_spec w hi
+  | refreshFull fail faults =>
+    have := refreshFull_spec w ⟨faults, 0⟩ hi
     simp only [exec]
-    exact ⟨this.1, fun _ => this.2.1, this.2.2⟩
+    split
+    · rename_i reg fx e heq
+      rw [heq] at this
+      exact ⟨this.1, fun _ => this.2.1, this.2.2⟩
+    · rename_i reg fx heq
+      rw [heq] at this
+      exact ⟨this.1, fun _ => this.2.1, this.2.2⟩
+  | drestart i retain faults =>
+    simp only [exec]
+    split
+    · exact ⟨hi, fun _ h => h, fun _ _ h => h⟩
+    · split
+      · exact ⟨hi, fun _ h => h, fun _ _ h => h⟩
+      · split
+        · exact ⟨hi, fun _ h => h, fun _ _ h => h⟩
+        · rename_i j _
+          have := restartAt_spec w j retain faults hi
+          exact ⟨this.1, fun _ => this.2.1, this.2.2⟩
   | restartOutside i =>
     simp only [exec]
     split
@@ -1103,7 +1617,7 @@ theorem exec_spec (w : World) (op : Op) (hi : Inv w) :
     · exact ⟨hi, fun _ h => h, fun _ _ h => h⟩
     · exact ⟨⟨hi.nodup, hi.pid, hi.rem⟩, fun _ h => h, fun _ _ h => h⟩
   | saveload =>
-    simp only [exec, decode_encode]
+    simp only [exec]
     exact ⟨hi, fun _ h => h, fun _ _ h => h⟩
 
 theorem inv_init : Inv World.init :=
@@ -1133,26 +1647,143 @@ theorem run_removedAt (w : World) (ops : List Op) (i n : Nat) (hi : Inv w) (hr :
 
 /-! ## The registry file: where `add_node` saves, and service numbers across `reload` -/
 
-/-- One loop iteration: either nothing is recorded and the file is untouched, or one entry numbered `num` is
-recorded, its service is installed, and the file is the whole in-memory registry (saved right after the install). -/
-theorem addOne_file (num : Nat) (np mp rp : Option Nat) (metrics : Bool) (ver : Nat) (a : AddAcc) :
+/-- No call of the fault list has its effect and then reports failure. -/
+def Fx.Clean (fx : Fx) : Prop := ∀ b ∈ fx.faults, b ≠ Fault.failAfter
+
+theorem pop_clean {fx : Fx} (h : fx.Clean) : fx.pop.1 ≠ .failAfter ∧ fx.pop.2.Clean := by
+  unfold Fx.pop
+  cases hf : fx.faults with
+  | nil => exact ⟨by simp, fun b hb => by cases hb⟩
+  | cons b r =>
+    refine ⟨h b (by rw [hf]; exact List.mem_cons_self ..), ?_⟩
+    intro c hc
+    exact h c (by rw [hf]; exact List.mem_cons_of_mem _ hc)
+
+theorem allocPort_clean (w : World) (fx : Fx) (h : fx.Clean) : (allocPort w fx).2.2.Clean := by
+  unfold allocPort
+  have := (pop_clean h).2
+  split
+  rename_i b fx' heq
+  rw [heq] at this
+  split
+  · exact this
+  · split <;> exact this
+
+theorem addPorts_clean (mp rp : Option Nat) (metrics : Bool) (w : World) (fx : Fx) (h : fx.Clean) :
+    (addPorts mp rp metrics w fx).2.2.Clean := by
+  unfold addPorts
+  split
+  · rename_i w1 fx1 heq
+    split at heq
+    · cases heq
+    · have := allocPort_clean w fx h
+      rw [heq] at this; exact this
+  · rename_i rpcP w1 fx1 heq
+    have h1 : fx1.Clean := by
+      split at heq
+      · cases heq; exact h
+      · have := allocPort_clean w fx h
+        rw [heq] at this; exact this
+    split
+    · exact h1
+    · split
+      · have := allocPort_clean w1 fx1 h1
+        split
+        · rename_i h3; rw [h3] at this; exact this
+        · rename_i h3; rw [h3] at this; exact this
+      · exact h1
+
+/-- One loop iteration, registry and file only (any faults): either nothing is recorded and the file is untouched, or
+one entry numbered `num` is recorded and the file is the whole in-memory registry (saved right after the install). -/
+theorem addOne_file0 (num : Nat) (np mp rp : Option Nat) (metrics : Bool) (ver : Nat) (a : AddAcc) :
     let a' := addOne num np mp rp metrics ver a
-    (a'.w.reg = a.w.reg ∧ a'.w.os.installed = a.w.os.installed ∧ a'.file = a.file) ∨
-    (∃ new os1, new.number = num ∧ a'.w.reg = a.w.reg ++ [new] ∧ os1.installed = a.w.os.installed ∧
-      a'.w.os = osInstall os1 num np ∧ a'.file = a'.w.reg) := by
+    (a'.w.reg = a.w.reg ∧ a'.file = a.file) ∨ (a'.file = a'.w.reg) := by
   intro a'
   unfold a' addOne
   have hp := addPorts_minor mp rp metrics a.w a.fx
   split
   · rename_i w1 fx1 heq
     rw [heq] at hp
-    left; exact ⟨hp.1, hp.2.2, rfl⟩
+    left; exact ⟨hp.1, rfl⟩
   · rename_i rpcP metP w1 fx1 heq
     rw [heq] at hp
     split
-    · left; exact ⟨hp.1, hp.2.2, rfl⟩
-    · right
-      exact ⟨⟨num, .added, none, np, metP, rpcP, ver, none⟩, mkDir w1.os num, rfl, by
+    · left; exact ⟨hp.1, rfl⟩
+    · left; exact ⟨hp.1, rfl⟩
+    · right; rfl
+
+theorem addLoop_file0 (k num : Nat) (np mp rp : Option Nat) (metrics : Bool) (ver : Nat) (a0 a : AddAcc)
+    (h : (a.w.reg = a0.w.reg ∧ a.file = a0.file) ∨ a.file = a.w.reg) :
+    ((addLoop k num np mp rp metrics ver a).w.reg = a0.w.reg ∧ (addLoop k num np mp rp metrics ver a).file = a0.file) ∨
+    (addLoop k num np mp rp metrics ver a).file = (addLoop k num np mp rp metrics ver a).w.reg := by
+  induction k generalizing num np mp rp a with
+  | zero => exact h
+  | succ k ih =>
+    have h1 : ((addOne num np mp rp metrics ver a).w.reg = a0.w.reg ∧ (addOne num np mp rp metrics ver a).file = a0.file) ∨
+        (addOne num np mp rp metrics ver a).file = (addOne num np mp rp metrics ver a).w.reg := by
+      rcases addOne_file0 num np mp rp metrics ver a with ⟨g1, g2⟩ | g
+      · rcases h with ⟨h1, h2⟩ | h
+        · left; exact ⟨g1.trans h1, g2.trans h2⟩
+        · right; rw [g2, g1]; exact h
+      · right; exact g
+    unfold addLoop
+    dsimp only
+    split
+    · exact h1
+    · exact ih _ _ _ _ _ h1
+
+/-- `add_node`, registry and file (any faults): either it recorded nothing and left the file alone, or the file it
+leaves is exactly the in-memory registry. -/
+theorem addNode_file0 (w : World) (fx : Fx) (file : List Svc) (count : Nat) (np mp rp : Option (Nat × Nat))
+    (metrics : Bool) (ver : Nat) :
+    let r := addNode w fx file count np mp rp metrics ver
+    (r.1.reg = w.reg ∧ r.2.2.2 = file) ∨ r.2.2.2 = r.1.reg := by
+  intro r
+  unfold r addNode
+  dsimp only
+  split
+  · left; exact ⟨rfl, rfl⟩
+  · split
+    · left; exact ⟨rfl, rfl⟩
+    · split
+      · left; exact ⟨rfl, rfl⟩
+      · have h := addLoop_file0 count (startNumber w.reg) (np.map (·.1)) (mp.map (·.1)) (rp.map (·.1)) metrics ver
+          ⟨w, fx, [], [], false, file⟩ ⟨w, fx, [], [], false, file⟩ (Or.inl ⟨rfl, rfl⟩)
+        split
+        · exact h
+        · split <;> exact h
+
+/-- One loop iteration under a clean fault list: either nothing is recorded or installed and the file is untouched, or
+one entry numbered `num` is recorded, its service is installed, and the file is the whole in-memory registry (saved
+right after the install). -/
+theorem addOne_file (num : Nat) (np mp rp : Option Nat) (metrics : Bool) (ver : Nat) (a : AddAcc) (hc : a.fx.Clean) :
+    let a' := addOne num np mp rp metrics ver a
+    a'.fx.Clean ∧
+    ((a'.w.reg = a.w.reg ∧ a'.w.os.installed = a.w.os.installed ∧ a'.file = a.file) ∨
+    (∃ new os1, new.number = num ∧ a'.w.reg = a.w.reg ++ [new] ∧ os1.installed = a.w.os.installed ∧
+      a'.w.os = osInstall os1 num np new.rpcPort ∧ a'.file = a'.w.reg)) := by
+  intro a'
+  unfold a' addOne
+  have hp := addPorts_minor mp rp metrics a.w a.fx
+  have hcl := addPorts_clean mp rp metrics a.w a.fx hc
+  split
+  · rename_i w1 fx1 heq
+    rw [heq] at hp hcl
+    exact ⟨hcl, Or.inl ⟨hp.1, hp.2.2, rfl⟩⟩
+  · rename_i rpcP metP w1 fx1 heq
+    rw [heq] at hp hcl
+    have hpop := pop_clean hcl
+    split
+    · rename_i fx2 heq2
+      rw [heq2] at hpop
+      exact ⟨hpop.2, Or.inl ⟨hp.1, hp.2.2, rfl⟩⟩
+    · rename_i fx2 heq2
+      rw [heq2] at hpop
+      exact absurd rfl hpop.1
+    · rename_i fx2 heq2
+      rw [heq2] at hpop
+      refine ⟨hpop.2, Or.inr ?_⟩
+      exact ⟨⟨num, .added, none, np, metP, rpcP, ver, none, none, none⟩, mkDir w1.os num, rfl, by
         have h1 : w1.reg = a.w.reg := hp.1
         simp [h1], hp.2.2, rfl, rfl⟩
 
@@ -1168,8 +1799,11 @@ def FileRel (a0 a : AddAcc) : Prop :=
   (a.file = a.w.reg ∧ ∀ n, a.w.os.isInstalled n = true → a0.w.os.isInstalled n = true ∨ ∃ s ∈ a.w.reg, s.number = n)
 
 theorem addOne_fileRel (num : Nat) (np mp rp : Option Nat) (metrics : Bool) (ver : Nat) (a0 a : AddAcc)
-    (h : FileRel a0 a) : FileRel a0 (addOne num np mp rp metrics ver a) := by
-  rcases addOne_file num np mp rp metrics ver a with ⟨hr, hi, hf⟩ | ⟨new, os1, hn, hr, hi1, hos, hf⟩
+    (hc : a.fx.Clean) (h : FileRel a0 a) :
+    (addOne num np mp rp metrics ver a).fx.Clean ∧ FileRel a0 (addOne num np mp rp metrics ver a) := by
+  obtain ⟨hcl, hcases⟩ := addOne_file num np mp rp metrics ver a hc
+  refine ⟨hcl, ?_⟩
+  rcases hcases with ⟨hr, hi, hf⟩ | ⟨new, os1, hn, hr, hi1, hos, hf⟩
   · have hinst := isInstalled_congr hi
     rcases h with ⟨h1, h2, h3⟩ | ⟨h1, h2⟩
     · left; exact ⟨hr.trans h1, hf.trans h2, fun n => (hinst n).trans (h3 n)⟩
@@ -1186,7 +1820,7 @@ theorem addOne_fileRel (num : Nat) (np mp rp : Option Nat) (metrics : Bool) (ver
     rw [hos] at hn'
     by_cases hnn : n = num
     · exact Or.inr ⟨new, by rw [hr]; simp, hn.trans hnn.symm⟩
-    · have := (osInstall_spec os1 num np).1.inst n hnn
+    · have := (osInstall_spec os1 num np new.rpcPort).1.inst n hnn
       rw [this, isInstalled_congr hi1 n] at hn'
       rcases h with ⟨h1, _, h3⟩ | ⟨_, h2⟩
       · rw [h3 n] at hn'; exact Or.inl hn'
@@ -1195,16 +1829,16 @@ theorem addOne_fileRel (num : Nat) (np mp rp : Option Nat) (metrics : Bool) (ver
         · exact Or.inr ⟨s, by rw [hr]; exact List.mem_append_left _ hs, hsn⟩
 
 theorem addLoop_fileRel (k num : Nat) (np mp rp : Option Nat) (metrics : Bool) (ver : Nat) (a0 a : AddAcc)
-    (h : FileRel a0 a) : FileRel a0 (addLoop k num np mp rp metrics ver a) := by
+    (hc : a.fx.Clean) (h : FileRel a0 a) : FileRel a0 (addLoop k num np mp rp metrics ver a) := by
   induction k generalizing num np mp rp a with
   | zero => exact h
   | succ k ih =>
-    have h1 := addOne_fileRel num np mp rp metrics ver a0 a h
+    have h1 := addOne_fileRel num np mp rp metrics ver a0 a hc h
     unfold addLoop
     dsimp only
     split
-    · exact h1
-    · exact ih _ _ _ _ _ h1
+    · exact h1.2
+    · exact ih _ _ _ _ _ h1.1 h1.2
 
 /-- Numbers only (no assumption on the rest of the state): the loop appends fresh, pairwise distinct numbers. -/
 theorem addLoop_numbers (k num : Nat) (np mp rp : Option Nat) (metrics : Bool) (ver : Nat) (a : AddAcc)
@@ -1217,7 +1851,10 @@ theorem addLoop_numbers (k num : Nat) (np mp rp : Option Nat) (metrics : Bool) (
     have h1 : Fresh (addOne num np mp rp metrics ver a).w.reg (num + 1) ∧
         ((addOne num np mp rp metrics ver a).w.reg.map (·.number)).Nodup ∧
         (a.w.reg.map (·.number)) <+: ((addOne num np mp rp metrics ver a).w.reg.map (·.number)) := by
-      rcases addOne_cases num np mp rp metrics ver a with ⟨hr, _⟩ | ⟨new, _, hnum, _, _, hr, _, _⟩
+      rcases addOne_cases num np mp rp metrics ver a with ⟨hr, _⟩ | ⟨hr, _⟩ | ⟨new, _, hnum, _, _, hr, _, _⟩
+      · have hr' : (addOne num np mp rp metrics ver a).w.reg = a.w.reg := hr
+        rw [hr']
+        exact ⟨fun s hs => Nat.lt_succ_of_lt (hf s hs), hn, List.prefix_refl _⟩
       · have hr' : (addOne num np mp rp metrics ver a).w.reg = a.w.reg := hr
         rw [hr']
         exact ⟨fun s hs => Nat.lt_succ_of_lt (hf s hs), hn, List.prefix_refl _⟩
@@ -1244,112 +1881,190 @@ theorem addLoop_numbers (k num : Nat) (np mp rp : Option Nat) (metrics : Bool) (
     · obtain ⟨g1, g2⟩ := ih (num + 1) (np.map (· + 1)) (mp.map (· + 1)) (rp.map (· + 1)) _ h1.1 h1.2.1
       exact ⟨g1, h1.2.2.trans g2⟩
 
-/-! ## Only `add_node` creates service definitions for new numbers -/
-
-/-- Every service definition present afterwards was present before. -/
-def InstSub (os os' : OS) : Prop := ∀ m, os'.isInstalled m = true → os.isInstalled m = true
-
-theorem InstSub.refl (os : OS) : InstSub os os := fun _ h => h
-theorem InstSub.trans {a b c : OS} (h1 : InstSub a b) (h2 : InstSub b c) : InstSub a c := fun m h => h1 m (h2 m h)
-theorem InstSub.of_eq {os os' : OS} (h : os'.installed = os.installed) : InstSub os os' :=
-  fun m hm => by rw [isInstalled_congr h m] at hm; exact hm
-
-theorem svcStart_instSub (s : Svc) (os : OS) (fx : Fx) (ct : Bool) : InstSub os (svcStart s os fx ct).2.1 := by
-  rcases svcStart_cases s os fx ct with ⟨_, h2, _⟩ | ⟨_, _, h3⟩ | ⟨_, hs, _⟩
-  · rw [h2]; exact InstSub.refl _
-  · rcases h3 with h3 | h3
-    · rw [h3]; exact InstSub.refl _
-    · exact InstSub.of_eq (osStart_spec h3).2.1
-  · exact InstSub.of_eq (osStart_spec hs).2.1
-
-theorem svcStop_instSub (s : Svc) (os : OS) (fx : Fx) : InstSub os (svcStop s os fx).2.1 := by
-  rcases svcStop_cases s os fx with ⟨_, h2, _⟩ | ⟨_, _, _, h3⟩
-  · rw [h2]; exact InstSub.refl _
-  · rcases h3 with ⟨h3, _⟩ | h3
-    · rw [h3]; exact InstSub.refl _
-    · exact InstSub.of_eq (osStop_spec h3).2.1
-
-theorem instSub_of_frame_false {n : Nat} {os os' : OS} (hf : Frame n os os') (hi : os'.isInstalled n = false) :
-    InstSub os os' := by
-  intro m hm
-  by_cases hmn : m = n
-  · subst hmn; rw [hi] at hm; cases hm
-  · rw [hf.inst m hmn] at hm; exact hm
-
-theorem svcRemove_instSub (s : Svc) (os : OS) (fx : Fx) (keep : Bool) : InstSub os (svcRemove s os fx keep).2.1 := by
-  rcases svcRemove_cases s os fx keep with ⟨_, _, h2⟩ | ⟨_, _, _, _, h2⟩ | ⟨_, _, _, _, hf, hi⟩
-  · rw [h2]; exact InstSub.refl _
-  · rw [h2]; exact InstSub.refl _
-  · exact instSub_of_frame_false hf hi
-
-theorem svcStop_number (s : Svc) (os : OS) (fx : Fx) : (svcStop s os fx).1.number = s.number :=
-  (svcStop_trans s os fx).num
-
-theorem svcUpgrade_instSub (s : Svc) (os : OS) (fx : Fx) (force start : Bool) (ver : Nat) (ct : Bool) :
-    InstSub os (svcUpgrade s os fx force start ver ct).2.1 := by
-  unfold svcUpgrade
-  split
-  · exact InstSub.refl _
-  · have T1 := svcStop_instSub s os fx
-    split
-    rename_i s1 os1 fx1 r1 heq
-    rw [heq] at T1
-    simp only at T1
-    split
-    · exact T1
-    · split
-      · exact T1
-      · split
-        split
-        · exact T1
-        · split
-          · exact T1
-          · rename_i os2 hu
-            obtain ⟨hf2, _, _, hi2⟩ := osUninstall_spec hu
-            have hinst := osUninstall_some_installed hu
-            have T2 : InstSub os1 os2 := instSub_of_frame_false hf2 hi2
-            split
-            split
-            · exact T1.trans T2
-            · obtain ⟨hf3, _, _, _⟩ := osInstall_spec os2 s1.number s1.nodePort
-              have T3 : InstSub os1 (osInstall os2 s1.number s1.nodePort) := by
-                intro m hm
-                by_cases hmn : m = s1.number
-                · subst hmn; exact hinst
-                · rw [hf3.inst m hmn, hf2.inst m hmn] at hm; exact hm
-              split
-              · have T4 := svcStart_instSub s1 (osInstall os2 s1.number s1.nodePort) ‹Fx› ct
-                dsimp only
-                split
-                · exact (T1.trans T3).trans T4
-                · exact (T1.trans T3).trans T4
-              · exact T1.trans T3
-
-theorem onSvc_instSub (w : World) (i : Nat) (faults : List Bool) (f : Svc → OS → Fx → Svc × OS × Fx × Res)
+theorem onSvc_instSub (w : World) (i : Nat) (faults : List Fault) (f : Svc → OS → Fx → Svc × OS × Fx × Res)
     (hT : ∀ s os fx, InstSub os (f s os fx).2.1) : InstSub w.os (onSvc w i faults f).1.os := by
   unfold onSvc
   split
   · exact InstSub.refl _
   · exact hT _ _ _
 
-/-- No operation other than `add` creates a service definition that was not there before. -/
-theorem exec_instSub (w : World) (op : Op) (hna : ∀ c np mp rp m v f, op ≠ .add c np mp rp m v f) :
+theorem svcStop_clean (s : Svc) (os : OS) (fx : Fx) (h : fx.Clean) : (svcStop s os fx).2.2.1.Clean := by
+  unfold svcStop
+  have hp := (pop_clean h).2
+  split
+  · exact h
+  · exact h
+  · exact h
+  · split
+    · exact h
+    · split
+      · exact h
+      · split
+        rename_i b fx' heq
+        rw [heq] at hp
+        split
+        · exact hp
+        · split
+          · exact hp
+          · split <;> exact hp
+
+/-- The daemon's restart under a clean fault list: every service definition present afterwards was present before or
+belongs to a recorded entry (the replacement service of `retain_peer_id = false` is recorded even when its first
+start fails). -/
+theorem restartAt_inst (w : World) (j : Nat) (retain : Bool) (faults : List Fault) (hc : Fx.Clean ⟨faults, 0⟩) (m : Nat)
+    (hm : (restartAt w j retain faults).1.os.isInstalled m = true) :
+    w.os.isInstalled m = true ∨ m ∈ (restartAt w j retain faults).1.reg.map (·.number) := by
+  unfold restartAt at hm ⊢
+  cases hget : w.reg[j]? with
+  | none => simp only [hget] at hm ⊢; exact Or.inl hm
+  | some s =>
+    simp only [hget] at hm ⊢
+    cases retain with
+    | true =>
+      simp only [↓reduceIte] at hm ⊢
+      exact Or.inl (onSvc_instSub w j faults svcRestartRetain svcRestartRetain_instSub m hm)
+    | false =>
+      simp only [Bool.false_eq_true, ↓reduceIte] at hm ⊢
+      have I1 := svcStop_instSub s w.os ⟨faults, 0⟩
+      have C1 := svcStop_clean s w.os ⟨faults, 0⟩ hc
+      rcases hstop : svcStop s w.os ⟨faults, 0⟩ with ⟨s1, os1, fx1, r1⟩
+      rw [hstop] at I1 hm C1
+      simp only at I1 hm C1 ⊢
+      cases hf : r1.failed with
+      | true => simp only [hf, ↓reduceIte] at hm ⊢; exact Or.inl (I1 m hm)
+      | false =>
+        simp only [hf, Bool.false_eq_true, ↓reduceIte] at hm ⊢
+        have hc := restartFresh_cases (restartNumber w.reg) s1 os1 fx1
+        rcases hfresh : restartFresh (restartNumber w.reg) s1 os1 fx1 with ⟨new, os2, fx2, r2⟩
+        rw [hfresh] at hc hm
+        simp only at hc hm ⊢
+        rcases hc with ⟨_, _, hmin⟩ | ⟨node0, node, hn0, _, _, hsome, T, I2, _⟩
+        · rcases hmin with hmin | ⟨hfa, _⟩
+          · left
+            apply I1 m
+            have : os2.isInstalled m = os1.isInstalled m := by simp [OS.isInstalled, hmin.2]
+            rw [← this]; exact hm
+          · exact absurd hfa (pop_clean C1).1
+        · have h2 := I2 m hm
+          by_cases hmn : m = restartNumber w.reg
+          · right
+            subst hsome
+            simp only [Option.toList_some, List.map_append, List.map_cons, List.map_nil, List.mem_append,
+              List.mem_singleton]
+            right
+            rw [T.num, hn0]; exact hmn
+          · left
+            apply I1 m
+            rw [(osInstall_spec (mkDir os1 (restartNumber w.reg)) (restartNumber w.reg) none s1.rpcPort).1.inst m hmn] at h2
+            exact h2
+
+/-- No operation other than `add` and the daemon's restart creates a service definition that was not there before. -/
+theorem exec_instSub (w : World) (op : Op) (hna : ∀ c np mp rp m v f, op ≠ .add c np mp rp m v f)
+    (hnr : ∀ i r f, op ≠ .drestart i r f) :
     InstSub w.os (exec w op).1.os := by
   cases op with
   | add c np mp rp m v f => exact absurd rfl (hna c np mp rp m v f)
+  | drestart i r f => exact absurd rfl (hnr i r f)
   | start i ct faults => exact onSvc_instSub w i faults _ (fun s os fx => svcStart_instSub s os fx ct)
   | stop i faults => exact onSvc_instSub w i faults _ svcStop_instSub
   | remove i keep faults => exact onSvc_instSub w i faults _ (fun s os fx => svcRemove_instSub s os fx keep)
   | upgrade i force start ver ct faults =>
     exact onSvc_instSub w i faults _ (fun s os fx => svcUpgrade_instSub s os fx force start ver ct)
   | refresh => exact InstSub.refl _
-  | refreshFull => exact InstSub.refl _
+  | refreshFull fail faults => simp only [exec]; split <;> exact InstSub.refl _
   | restartOutside i =>
     simp only [exec]; split
     · exact InstSub.refl _
     · exact InstSub.of_eq (osRestart_installed _ _)
   | kill i => simp only [exec]; split <;> exact InstSub.refl _
   | flaky i on => simp only [exec]; split <;> exact InstSub.refl _
-  | saveload => simp only [exec, decode_encode]; exact InstSub.refl _
+  | saveload => simp only [exec]; exact InstSub.refl _
+
+/-- The daemon's restart as an operation: either nothing happened (no such entry / no peer id recorded), or it is
+`restart_node_service` on the entry `j` found by the peer id. -/
+theorem exec_drestart_cases (w : World) (i : Nat) (retain : Bool) (faults : List Fault) :
+    ((exec w (.drestart i retain faults)).1 = w ∧ (exec w (.drestart i retain faults)).2.1.failed = true) ∨
+    (∃ j, (w.reg[i]?).isSome = true ∧ exec w (.drestart i retain faults) = restartAt w j retain faults) := by
+  simp only [exec]
+  split
+  · left; exact ⟨rfl, rfl⟩
+  · rename_i s0 h0
+    split
+    · left; exact ⟨rfl, rfl⟩
+    · split
+      · left; exact ⟨rfl, rfl⟩
+      · rename_i j _
+        right; exact ⟨j, by simp [h0], rfl⟩
+
+theorem set_noNewRun {reg : List Svc} {j k : Nat} {s s1 s' : Svc} (hget : reg[j]? = some s)
+    (hN : s1.status = .running → s.status = .running) (hk : (reg.set j s1)[k]? = some s') (hr : s'.status = .running) :
+    ∃ t, reg[k]? = some t ∧ t.status = .running := by
+  rw [List.getElem?_set] at hk
+  split at hk
+  · rename_i hjk
+    subst hjk
+    split at hk
+    · cases hk; exact ⟨s, hget, hN hr⟩
+    · cases hk
+  · exact ⟨s', hk, hr⟩
+
+/-- A failed daemon restart never newly records Running. -/
+theorem restartAt_noNewRun (w : World) (j : Nat) (retain : Bool) (faults : List Fault)
+    (hf : (restartAt w j retain faults).2.1.failed = true) (k : Nat) (s' : Svc)
+    (hk : (restartAt w j retain faults).1.reg[k]? = some s') (hr : s'.status = .running) :
+    ∃ t, w.reg[k]? = some t ∧ t.status = .running := by
+  unfold restartAt at hf hk
+  cases hget : w.reg[j]? with
+  | none => simp only [hget] at hk; exact ⟨s', hk, hr⟩
+  | some s =>
+    simp only [hget] at hf hk
+    cases retain with
+    | true =>
+      simp only [↓reduceIte] at hf hk
+      unfold onSvc at hf hk
+      simp only [hget] at hf hk
+      have N := svcRestartRetain_noNewRun s w.os ⟨faults, 0⟩
+      rcases hrr : svcRestartRetain s w.os ⟨faults, 0⟩ with ⟨s1, os1, fx1, r1⟩
+      rw [hrr] at hf hk N
+      simp only at hf hk
+      exact set_noNewRun hget (N hf) hk hr
+    | false =>
+      simp only [Bool.false_eq_true, ↓reduceIte] at hf hk
+      have N1 := svcStop_noNewRun s w.os ⟨faults, 0⟩
+      rcases hstop : svcStop s w.os ⟨faults, 0⟩ with ⟨s1, os1, fx1, r1⟩
+      rw [hstop] at hf hk N1
+      simp only at hf hk N1
+      cases hfail : r1.failed with
+      | true =>
+        simp only [hfail, ↓reduceIte] at hf hk
+        exact set_noNewRun hget N1 hk hr
+      | false =>
+        simp only [hfail, Bool.false_eq_true, ↓reduceIte] at hf hk
+        have hc := restartFresh_cases (restartNumber w.reg) s1 os1 fx1
+        rcases hfresh : restartFresh (restartNumber w.reg) s1 os1 fx1 with ⟨new, os2, fx2, r2⟩
+        rw [hfresh] at hc hf hk
+        simp only at hc hf hk
+        rcases Nat.lt_or_ge k (w.reg.set j s1).length with hlt | hge
+        · rw [List.getElem?_append_left hlt] at hk
+          exact set_noNewRun hget N1 hk hr
+        · rw [List.getElem?_append_right hge] at hk
+          rcases hc with ⟨hnone, _, _⟩ | ⟨node0, node, _, _, _, hsome, _, _, hnr⟩
+          · subst hnone; simp at hk
+          · subst hsome
+            have hmem : s' ∈ [node] := List.mem_of_getElem? (by simpa using hk)
+            simp only [List.mem_singleton] at hmem
+            subst hmem
+            exact (hnr hf hr).elim
+
+/-- The fault list of an `add` / a daemon restart contains no call that has its effect and then reports failure
+(such an `install` leaves a service definition the code cannot know about). -/
+def Op.CleanInstall : Op → Prop
+  | .add _ _ _ _ _ _ f => Fx.Clean ⟨f, 0⟩
+  | .drestart _ _ f => Fx.Clean ⟨f, 0⟩
+  | _ => True
+
+def SOp.CleanInstall : SOp → Prop
+  | .op o => o.CleanInstall
+  | .reload => True
 
 end SafeNet.Lifecycle
